@@ -96,6 +96,17 @@ def run(repo, rep):
     rep.clause("C15-h", "the emitted block configuration is the one of the applied schedule (apply_schedule stores it in every pass)")
     rep.clause("C15-i", "IFM block depth per IFM precision (function interpreted): only 16-bit IFMs use the 16-deep block")
     rep.clause("C15-j", "parameter-named positional arguments of the block configuration search sit at their parameter's position")
+    rep.clause("C15-l", "the LUT partition: on parts without reserved banks every stripe without a table invalidates the resident tables (no exemption by block type: elementwise operands reach the last banks) [rule shared with C03-f]")
+    from . import c03 as _c03
+
+    rep.run_borrowed(_c03, {"C03-f": "C15-l"}, repo, only_sites=("=ethosu/vela/lut.py:optimize_high_level_cmd_stream",))  # exact site: the index-unit finding F58 of the same function stays with C03
+    rep.clause("C15-m", "scheduler, block-config query and generator derive 'the operation is scaled' (40-bit accumulators for 16-bit IFMs) from the same operands: the feature maps ifm, ifm2, ofm")
+    rule_scaled_operands(repo, rep)
+    rep.clause("C15-k", "resampling / rounding / activation modes are compared within one Enum class: the register enum and the API enum of the same name are different classes and never equal (annotation- and table-based class inference, comparisons and call arguments)")
+    from .shared import enum_class_agreement as _eca
+
+    if _eca(repo, rep, "C15-k") < 40:
+        raise AnalysisError("fewer than 40 enum comparisons / arguments with an inferred class")
     rule_round8(repo, rep)
     rep.undecided("numerical bank arithmetic for all shapes on all six accelerators")
     rep.assume("bank counts, granules, bit widths and block extents are positive")
@@ -749,3 +760,80 @@ def rule_round8(repo, rep):
               (f"{wrong[0][0]}-bit IFM of depth {wrong[0][1]} (part-kernel {wrong[0][2]}): {wrong[0][3]}, the hardware reads {wrong[0][4]} channels per block: an INT32 REDUCE_SUM gets an IFM partition sized for half its block") if wrong else "")
     if swapped_argument_lint(repo, rep, "C15-j", ["scheduler", "api", "register_command_stream_generator"], strict=True) < 3:
         raise AnalysisError("fewer than 3 calls with parameter-named arguments in the block configuration clients")
+
+
+def rule_scaled_operands(repo, rep):
+    """(m) `_acc_type(.., scaled)` chooses 40-bit accumulators for a scaled 16-bit operation. `scaled` is derived three times:
+    Operation.has_scaling (scheduler), api.npu_find_block_configs (query) and generate_block_config's caller in the generator. Each
+    derivation tests `quantization is None` over a collection of operands; the collections are resolved (list display, list + append,
+    or a `get_*` accessor of Operation whose return lists members) and must be the feature maps {ifm, ifm2, ofm} in all three - a
+    synthesised zero bias has no quantisation."""
+    opm = repo.mod("operation")
+
+    def accessor_members(name):
+        fn = opm.func(f"Operation.{name}")
+        if fn is None:
+            return None
+        rets = [r for r in ast.walk(fn) if isinstance(r, ast.Return) and r.value is not None]
+        if len(rets) != 1 or not isinstance(rets[0].value, (ast.Tuple, ast.List)):
+            return None
+        return {e.attr for e in rets[0].value.elts if isinstance(e, ast.Attribute)} | {"?" for e in rets[0].value.elts if not isinstance(e, ast.Attribute)}
+
+    def operands(fn, coll):
+        """attribute names of the elements of collection expression `coll` inside fn"""
+        if isinstance(coll, (ast.List, ast.Tuple)):
+            return {e.attr if isinstance(e, ast.Attribute) else "?" for e in coll.elts}
+        if isinstance(coll, ast.Call) and isinstance(coll.func, ast.Attribute) and not coll.args:
+            return accessor_members(coll.func.attr)
+        if isinstance(coll, ast.Name):
+            out = set()
+            for st in ast.walk(fn):
+                if isinstance(st, ast.Assign) and any(isinstance(t, ast.Name) and t.id == coll.id for t in st.targets):
+                    sub = operands(fn, st.value)
+                    if sub is None:
+                        return None
+                    out |= sub
+                if isinstance(st, ast.Call) and isinstance(st.func, ast.Attribute) and st.func.attr == "append" and str(norm(st.func.value)) == coll.id and st.args:
+                    out.add(st.args[0].attr if isinstance(st.args[0], ast.Attribute) else "?")
+            return out or None
+        return None
+
+    def derivation(mname, q):
+        m = repo.mod(mname)
+        fn = m.func(q)
+        if fn is None:
+            raise AnalysisError(f"{mname}.{q} not found")
+        for node in ast.walk(fn):
+            gens = []
+            if isinstance(node, ast.For):
+                gens = [(node.iter, node.body)]
+            elif isinstance(node, (ast.GeneratorExp, ast.ListComp)):
+                gens = [(g.iter, [node.elt]) for g in node.generators]
+            for it_, body in gens:
+                txt = " ".join(str(norm(b)) for b in body)
+                if "quantization is None" in txt:
+                    return fn, it_
+        raise AnalysisError(f"{mname}.{q}: no loop testing `quantization is None`")
+
+    n = 0
+    for mname, q in (("operation", "Operation.has_scaling"), ("api", "npu_find_block_configs"), ("register_command_stream_generator", "generate_block_config")):
+        try:
+            fn, coll = derivation(mname, q)
+        except AnalysisError:
+            if mname != "register_command_stream_generator":
+                raise
+            gm = repo.mod(mname)
+            cands = [k for k, f_ in gm.functions.items() if any(isinstance(a, ast.Assign) and str(norm(a.targets[0])) == "all_fms_have_quant" for a in ast.walk(f_))]
+            if not cands:
+                raise
+            fn, coll = derivation(mname, cands[0])
+            q = cands[0]
+        ops_ = operands(fn, coll)
+        if ops_ is None:
+            raise AnalysisError(f"{mname}.{q}: operand collection `{norm(coll)}` not resolvable")
+        n += 1
+        rep.check(ops_ == {"ifm", "ifm2", "ofm"}, "C15-m", f"ethosu/vela/{mname}.py:{q}", f"'scaled' ranges over {sorted(ops_)} (`{norm(coll)[:60]}`)",
+                  f"`{norm(coll)[:80]}` ranges over {sorted(ops_)}: an operator without a bias in the model gets a synthesised zero bias without quantisation, counts as unscaled in the scheduler and is "
+                  "sized for 32-bit accumulators while the generator programs 40-bit ones ('block_config does not fit')")
+    if n < 3:
+        raise AnalysisError("fewer than 3 derivations of 'scaled'")
